@@ -97,7 +97,11 @@ func check(c Case) evid.Outcome {
 				first[key], firstAt[key] = res, i
 			}
 			// isolation: equals the same call on a fresh set holding only this lineage's definitions
-			fresh := hist.Fresh(h, hist.Lineage(h, results, i), op)
+			fop := op
+			if fop.Via == "" {
+				fop.Via = hist.RootVia(h, results, op.Set)
+			}
+			fresh := hist.Fresh(h, hist.Lineage(h, results, i), fop)
 			if !same(fresh, res) {
 				return evid.Viol("step %d %+v (set %d, template %q): result %s differs from the same call on a fresh set built from this lineage's own definitions: %s\nhistory: %+v", i, op, op.Set, name, show(res), show(fresh), h.Ops)
 			}
@@ -114,7 +118,7 @@ func check(c Case) evid.Outcome {
 }
 
 func gen(t *rapid.T) Case {
-	return Case{*hist.Gen(t, hist.Options{MaxOps: 16, BadMembers: rapid.IntRange(0, 3).Draw(t, "bad") == 0, Unbalanced: rapid.IntRange(0, 3).Draw(t, "unbalanced") == 0, ReadOnlyOps: true, ParseAfter: true, Clones: true, FileOps: true})}
+	return Case{*hist.Gen(t, hist.Options{CSP: true, MaxOps: 16, BadMembers: rapid.IntRange(0, 3).Draw(t, "bad") == 0, Unbalanced: rapid.IntRange(0, 3).Draw(t, "unbalanced") == 0, ReadOnlyOps: true, ParseAfter: true, Clones: true, FileOps: true})}
 }
 
 func TestPropFreeze(t *testing.T) { evid.RunProp(t, "freeze", 1, gen, check) }
